@@ -56,9 +56,13 @@ pub fn check(a: &Analysis, aux: &mut Aux, t: &mut Tally) -> Vec<Violation> {
         }
     };
     order.sort_by_key(|i| class_of(*i));
-    // at most a third of the budget each for the first two classes
+    // at most a third of the budget each for the first two classes; long histories (a mass scan
+    // took place) get a larger budget, spent on the segments that continue a connection
     let third = (aux.samples / 3).max(1);
+    let extra0 = if n > 1000 { 24 } else { 0 };
+    aux_extra(aux, extra0);
     for cl in [0u8, 1] {
+        let third = if cl == 0 { third + extra0 } else { third };
         let start = order.iter().position(|i| class_of(*i) == cl);
         if let Some(st) = start {
             let cnt = order[st..].iter().take_while(|i| class_of(**i) == cl).count();
@@ -198,6 +202,13 @@ pub fn check(a: &Analysis, aux: &mut Aux, t: &mut Tally) -> Vec<Violation> {
         }
     }
     v
+}
+
+/// Raise the sample budget of this judgement (never above what the scenario allows for replays).
+fn aux_extra(aux: &mut Aux, extra: usize) {
+    if extra > 0 && aux.samples < 1000 {
+        aux.samples += extra;
+    }
 }
 
 fn app_payload(s: &crate::model::StepInfo) -> Option<&[u8]> {
